@@ -780,6 +780,9 @@ func newRunner(head []string) runner {
 	if len(head) < 4 || head[0] != "case" {
 		return nil
 	}
+	if strings.HasPrefix(head[2], "joinx") {
+		return newJoinxRun(head)
+	}
 	if strings.HasPrefix(head[2], "join") {
 		return newJoinRun(head)
 	}
